@@ -2,6 +2,7 @@ import PMV.Model.ReadOnly
 import PMV.Lemmas.ReadOnly
 import PMV.Lemmas.ReadOnlyObj
 import PMV.Lemmas.ReadOnlyInv
+import PMV.Lemmas.ReadOnlyDeriv
 import PMV.Gen.Guards
 /-
   C08 — read-only objects cannot be changed through the public API.
@@ -137,14 +138,7 @@ def ownArrs (o : Obj) : List Nat :=
 def Sealed (s : State) (o : Obj) : Prop :=
   ∀ a ∈ ownArrs o, ∃ x, s.arrs[a]? = some x ∧ Fz x.buf s
 
--- FULL (`sealed_constant`): Sealed s o -> o.ro -> (every derivative read-only and sealed) -> for every history `ops`
---   that contains no override=True call and no insertion of a new derivative aimed at `o` or its derivatives:
---   obs (run s ops) i = obs s i.
--- Proved below: the memory half for every history (`sealed_constant_partial`: the values and mask an object's arrays show
--- never change, whatever is called on whatever object or array), and the record half for one step aimed at the object
--- (`mutator_rejected`: the state is returned unchanged).  Not proved in Lean: that a call aimed at ANOTHER object never
--- rebinds a field of this object's record (true by inspection of the model -- only `setObj i` with `i` the target, a
--- fresh object, or a non-read-only object occurs -- and checked on every step of every history by the harness).
+-- (the full statement, `sealed_constant`, is proved further down, after the frame property of the object store)
 /-- `sealed_constant_partial`: the values and the mask that a sealed object's arrays show are the same after every
     history of calls and direct writes. -/
 theorem sealed_constant_partial (s : State) (o : Obj) (ops : List Op) (h : Sealed s o) :
@@ -287,13 +281,20 @@ theorem as_readonly_agrees (s : State) (i : Nat) (o : Obj) (ho : s.objs[i]? = so
     have := frozen_pair s o.vals o.mask
     simpa [asRO0, ho, h, State.setObj, valNW, mskNW, State.arrW] using this
 
--- FULL (`inv_reachable`): for every history `ops`, every object of `run State.empty ops` satisfies `Agrees`, and every
---   derivative of a read-only object is read-only.
--- Proved: each way an object becomes read-only establishes `Agrees` (`as_readonly_agrees`, `derived_readonly` /
--- `derive1_readonly`, `survives_pickle`), and once established it cannot be lost as long as the object keeps its arrays
--- (`array_never_thaws`).  Not proved in Lean: the induction step for calls aimed at other objects (that they do not
--- rebind `vals`/`mask` of a read-only object).  The harness evaluates the invariant on every object after every step
--- of every history (oracle `flag-array`, `deriv-writable`).
+/-- `inv_reachable` (FULL): after EVERY history of calls of the alphabet, starting from nothing, every read-only object
+    has non-writeable value and mask arrays and every one of its derivatives is a read-only object -- for which the same
+    holds again, since the statement is about all objects of the state.  Induction over the history (`inv_run`); the
+    induction step is `inv_step` (PMV/Lemmas/ReadOnlyDeriv.lean), proved operation by operation. -/
+theorem inv_reachable (ops : List Op) (i : Nat) (o : Obj)
+    (ho : (run State.empty ops).objs[i]? = some o) (hro : o.ro = true) :
+    valNW (run State.empty ops) o.vals ∧ mskNW (run State.empty ops) o.mask ∧
+    ∀ kd ∈ o.derivs, ∃ d, (run State.empty ops).objs[kd.2]? = some d ∧ d.ro = true := by
+  have h := inv_run ops State.empty inv_empty
+  exact ⟨((h.1 i o ho).agr hro).1, ((h.1 i o ho).agr hro).2, h.2 i o (fun hf => hf) ho hro⟩
+
+/-- the same from any state that satisfies the invariant (e.g. the middle of a history) -/
+theorem inv_preserved (s : State) (ops : List Op) (h : Inv s) : Inv (run s ops) := inv_run ops s h
+
 /-- `inv_partial`: `Agrees` is stable: if a read-only object's arrays exist, it holds after every further history in
     which the object keeps its record. -/
 theorem inv_partial (s : State) (ops : List Op) (o : Obj)
